@@ -68,7 +68,8 @@ def generate(seed, tier):
     if seed % 1_000_000 == 0:
         return {"arm": "table", "knobs": {}}
     i = (seed % 1_000_000 - 1) % len(PARITY) if seed % 1_000_000 <= 2 * len(PARITY) else r.randrange(len(PARITY))
-    return {"arm": "parity", "case": i, "knobs": common.draw_knobs(r, stall_p=0.0)}
+    # both: the value is given in code AND the environment variable carries another one - code wins, nothing changes
+    return {"arm": "parity", "case": i, "both": r.random() < 0.4, "knobs": common.draw_knobs(r, stall_p=0.0)}
 
 
 def execute(s, ch):
@@ -76,7 +77,7 @@ def execute(s, ch):
 
 
 # ---------------------------------------------------------------------------------------------------- parity
-def _observe(s, ch, key, value, how):
+def _observe(s, ch, key, value, how, env_noise=None):
     obs = {}
     import importlib
     import logging
@@ -95,6 +96,8 @@ def _observe(s, ch, key, value, how):
     if how == "code":
         custom[key] = value
         custom.setdefault("APP_ROOT", "/simapp")
+        if env_noise is not None:
+            os.environ[env_key] = env_noise
     else:
         os.environ[env_key] = value
         custom.pop(key, None)
@@ -197,10 +200,21 @@ def _parity(s, ch):
             if a.get(field) != b.get(field):
                 viol.append(V("code-and-environment-differ:%s:%s" % (field, tag), "in code %r; from environment %r; errors "
                               "(env run) %s" % (a.get(field), b.get(field), b.get("errors"))))
-    res = common.result(k2, viol, key=repr((key, env_v)) if (a.get("snapshots") and a.get("polls_in_window", 0) >= 3) else None)
+    k3 = None
+    if s.get("both") and not viol:
+        others = [e_ for (k_, _c, e_) in PARITY if k_ == key and e_ != env_v] or ["elsewhere:1"]
+        noise = others[s["case"] % len(others)]
+        k3, c = _observe(s, kernel.Choices(ch.seed, None), key, code_v, "code", env_noise=noise)
+        for field in ("start", "out", "polls_in_window", "poll_gaps", "channel", "metadata", "frames", "snapshots", "deep_logger"):
+            if a.get(field) != c.get(field):
+                viol.append(V("environment-overrides-code:%s:%s" % (field, tag), "given in code alone %r; with DEEP_%s=%r "
+                              "set as well %r; errors %s" % (a.get(field), key, noise, c.get(field), c.get("errors"))))
+    res = common.result(k2, viol, key=repr((key, env_v, bool(k3))) if (a.get("snapshots") and a.get("polls_in_window", 0) >= 3) else None)
     res["digest"] = k1.digest()[:32] + k2.digest()[:32]
-    res["sim_ns"] += k1.sim_elapsed_ns
-    res["steps"] += k1.yields
+    res["sim_ns"] += k1.sim_elapsed_ns + (k3.sim_elapsed_ns if k3 else 0)
+    res["steps"] += k1.yields + (k3.yields if k3 else 0)
+    if k3:
+        res["digest"] = res["digest"][:48] + k3.digest()[:16]
     return res
 
 
